@@ -19,7 +19,7 @@ head = '''# Seeded changes against the quick checks
 `Cnn-t` / `C20-u`: round 5 (scale and length thresholds); `Cnn-u` / `C12-v` / `C20-v`: round 6 (call sequences, aliasing, left-over payload, errno).
 `Cnn-s`: round 4 (additionally told about the concretisation variants: truthy booleans, ownership flags, left-over keys, items in place).
 `Cnn-w`, `Cnn-y`: round 7 (two cooperating sites or a multi-step history / a fault or unusual input at one point). `Cnn-k`, `Cnn-m`: round 8 (an indirect change outside
-the anchored functions - helper, macro, header, other file / free choice). `Cnn-p`, `Cnn-q`: round 9 (the property text alone again: no hints, no list of used ideas). `Cnn-e`, `Cnn-f`, `Cnn-g`: round 10 (three small changes of at most six lines each).
+the anchored functions - helper, macro, header, other file / free choice). `Cnn-p`, `Cnn-q`: round 9 (the property text alone again: no hints, no list of used ideas). `Cnn-e`, `Cnn-f`, `Cnn-g`: round 10 (three small changes of at most six lines each). `Cnn-i`, `Cnn-j`: round 11 (small changes whose violation needs two features to meet).
 Each was confirmed with tools/seedconfirm.sh (applies, 22/22 tests pass, demo fails with / passes without) and run with tools/seedrun.sh.
 
 | id | change | result | first violation reported |
